@@ -70,6 +70,10 @@ def effects(prog, f, depth=0, seen=None):
                     if kind == "ext":
                         if tgt in CALLEE_RAISES_ON_STR:
                             local |= set(CALLEE_RAISES_ON_STR[tgt])
+                            if tgt.startswith("re.") and tgt.split(".")[-1] in ("compile", "search", "match", "fullmatch") and \
+                                    (len(c.args) > (1 if tgt == "re.compile" else 2) or any(k.arg == "flags" for k in c.keywords)):
+                                # explicit flags can contradict the pattern's own inline flags: "(?a)x" with re.UNICODE -> ValueError
+                                local.add("ValueError")
                             delegates.append((tgt, c, n))
                         elif tgt.split(".")[-1] in ("islice", "chain"):
                             pass
@@ -240,6 +244,75 @@ def rule_email(ctx, entries, rid="R13.5"):
     return r
 
 
+def rule_prefilters(ctx, entries, rid="R13.6"):
+    """A regex test inside a checker that leads straight to `return False` removes strings from what the checker accepts.  With
+    the format's grammar as a regular language (ipv4: four octets 0-255 without leading zeros; date: the YYYY-MM-DD shape every
+    real date has), decide on the automata built from the two regex syntax trees (sa/relang.py) whether the removed set meets
+    the grammar: reject-on-match needs grammar & filter = {}, reject-on-no-match needs grammar - filter = {}."""
+    from .. import relang
+    prog = ctx.prog
+    r = ctx.rule(rid, "no regex pre-filter of a built-in checker rejects a string of the format's grammar (decided on the regex automata)", floor=1)
+    grammars = {"ipv4": relang.IPV4, "ip-address": relang.IPV4, "date": relang.FULL_DATE_SHAPE}
+    seen = set()
+    for e in entries:
+        f = e.func
+        names = sorted(set(e.names.values()) & set(grammars))
+        if not e.present or f in seen or not names:
+            continue
+        seen.add(f)
+        gpat = grammars[names[0]]
+        p = f.params[0]
+        cfg = cfg_of(f)
+        n_tests = 0
+        for t in cfg.live:
+            if t.kind != "test":
+                continue
+            e2, flip = t.ast, False
+            while isinstance(e2, ast.UnaryOp) and isinstance(e2.op, ast.Not):
+                e2, flip = e2.operand, not flip
+            if isinstance(e2, ast.Compare) and len(e2.ops) == 1 and isinstance(e2.ops[0], (ast.Is, ast.IsNot)) and isinstance(e2.comparators[0], ast.Constant) \
+                    and e2.comparators[0].value is None:
+                flip = flip != isinstance(e2.ops[0], ast.Is)
+                e2 = e2.left
+            if not (isinstance(e2, ast.Call) and isinstance(e2.func, ast.Attribute) and e2.func.attr in ("search", "match", "fullmatch") and e2.args and norm(e2.args[-1]) == p):
+                continue
+            pat, ascii_flag = None, False
+            if len(e2.args) == 1:
+                rr = prog.resolve_expr(f.mod, e2.func.value, f)
+                if isinstance(rr, tuple) and rr[0] == "expr" and isinstance(rr[2], ast.Call) and rr[2].args and isinstance(rr[2].args[0], ast.Constant):
+                    pat = rr[2].args[0].value
+                    ascii_flag = any("ASCII" in norm(a) for a in rr[2].args[1:]) or any("ASCII" in norm(k.value) for k in rr[2].keywords)
+            elif isinstance(e2.args[0], ast.Constant):
+                pat = e2.args[0].value
+            if not isinstance(pat, str):
+                continue
+            # which outcome leads straight to `return False`?
+            rej = []
+            for (lab, y) in t.succ:
+                if lab in ("true", "false") and y.kind == "return" and isinstance(y.ast.value, ast.Constant) and y.ast.value.value is False:
+                    rej.append((lab == "true") != flip)      # True: rejected when the regex matched
+            for on_match in rej:
+                n_tests += 1
+                where = site(f, t.ast)
+                try:
+                    g = relang.build(gpat, "fullmatch")
+                    flt = relang.build(pat, e2.func.attr, ascii_flag)
+                    w = relang.intersect_witness(g, flt, relang.alphabet(gpat, pat), b_complement=not on_match)
+                except relang.Unsupported as u:
+                    r.ok(where, "NOT DECIDED: %s" % u)
+                    r.note(where, "pre-filter %r of %s not decided: %s" % (pat, f.qual, u))
+                    continue
+                if w is None:
+                    r.ok(where, "%s(%r) %s: disjoint from the %s grammar's complement side" % (e2.func.attr, pat, "rejects on match" if on_match else "rejects on no match", names[0]))
+                else:
+                    r.fail("%s|prefilter-rejects-grammar|%s" % (f.qual, pat[:30]), where,
+                           "`%s` %s and then returns False; the %s string %r is rejected by it" % (
+                               norm(t.ast)[:60], "matches" if on_match else "does not match", names[0], relang.show(w)))
+        if n_tests == 0:
+            r.ok(site(f), "no regex pre-filter rejects on its own")
+    return r
+
+
 def run(ctx):
     prog = ctx.prog
     calls = calls_of(prog)
@@ -257,6 +330,7 @@ def run(ctx):
     r3 = ctx.rule("R13.3", "no checker hands the string to a parser that accepts a superset of its grammar without checking the shape first", floor=1)
     r4 = ctx.rule("R13.4", "ipv6 rejects zone identifiers", floor=1)
     rule_email(ctx, entries)
+    rule_prefilters(ctx, entries)
     done = set()
     for e in entries:
         f = e.func
